@@ -119,7 +119,7 @@ def main():
         file.createDimension("threshold", len(args.thresholds))
     if len(args.quantiles) > 0:
         file.createDimension("quantile", len(args.quantiles))
-    vTime = file.createVariable("time", "i4", ("time",))
+    vTime = file.createVariable("time", "f8", ("time",))
     vOffset = file.createVariable("leadtime", "f4", ("leadtime",))
     vLocation = file.createVariable("location", "f8", ("location",))
     vLat = file.createVariable("lat", "f4", ("location",))
